@@ -14,10 +14,10 @@ ASSUMPTIONS = [
     "trusted: the Go-core semantics as a model of Go (call by value, left-to-right evaluation of call operands, short-circuit && ||, closures capture, type switch; integers unbounded) and of frt.IfElse / IfOnly / Pipe and slice.Map / Filter / Fold by their definitions; primitives on first-order data have one semantics used on both sides (their correctness is C10 / C13 / C14)",
     "outside the proved fragment, counted in coverage.distribution (outside-fragment.*): string-match arms binding a variable; those programs are still compared by stdout (c01.prog)",
     "search = the property's own observable: type-directed random programs over the documented subset + a hand-kept boundary corpus; transpiled by the real pipeline in-process, compiled with the Go toolchain, run; stdout vs the reference semantics; go build diagnostics are failures",
-    "generators stay inside the hypotheses of known findings: given arguments of partial applications are effect free (D9), every binding is used (D17), fewer than 100 inference variables per definition (D12); integers stay small (no wrap-around)",
+    "generators stay inside the hypotheses of known findings: given arguments of partial applications are effect free (D9), every binding is used (D17), binder names are fresh (D18, D19), fewer than 100 inference variables per definition (D12); integers stay small (no wrap-around)",
 ]
 
-KNOWN = {"d9_partial_effects": "D9", "d17_unused_binding": "D17", "d12_many_typevars": "D12"}
+KNOWN = {"d9_partial_effects": "D9", "d17_unused_binding": "D17", "d12_many_typevars": "D12", "d18_match_var_shadow": "D18", "d19_rebinding": "D19"}
 
 
 def run(ctx):
